@@ -157,7 +157,11 @@ def perturb_events(ns, out, tid, seq, seed, model, inputs, rng=None):
            if a not in efx.BOOKKEEPING}
     for n, a in inputs:
         m2 = copy.deepcopy(model)
-        m2[n]["inp"][a][0] = m2[n]["inp"][a][0] * 1.37 + (0.5 if m2[n]["inp"][a][0] == 0 else 0)
+        hour = {"s": 3600, "min": 60, "hour": 1}.get(m2[n]["inp"][a][1])
+        if a in ("user_time_spent", "request_duration") and hour:
+            m2[n]["inp"][a][0] = m2[n]["inp"][a][0] + hour        # across an hour boundary: what comes later is placed another hour
+        else:
+            m2[n]["inp"][a][0] = m2[n]["inp"][a][0] * 1.37 + (0.5 if m2[n]["inp"][a][0] == 0 else 0)
         try:
             other = efx.build(ns, m2)
         except Exception:
@@ -227,7 +231,9 @@ def run(tier, out):
             names = sorted(efx.reachable(h.model))
             inputs = [(n, a) for n in names for a in h.model[n]["inp"]]
             rng.shuffle(inputs)
-            evs, seq = perturb_events(ns, out, tid, seq, seed, h.model, inputs[: (6 if tier == "quick" else 40)])
+            durations = [x for x in inputs if x[1] in ("user_time_spent", "request_duration")]
+            inputs = durations[:3] + [x for x in inputs if x not in durations[:3]]
+            evs, seq = perturb_events(ns, out, tid, seq, seed, h.model, inputs[: (8 if tier == "quick" else 40)])
             events += evs
         for variant, m in empty_value_models():
             tid += 1
